@@ -45,6 +45,7 @@ class Sym:
     """a symbolic rational: `e` is a Lean term, `py` evaluates it on Fractions"""
     __slots__ = ("e", "f")
     __hash__ = None
+    int_hook = None     # callable(Sym) -> int, see `__int__`
 
     def __init__(self, e, f):
         self.e = e
@@ -94,7 +95,21 @@ class Sym:
     def __bool__(self): return not self._cmp("=", 0, lambda x, y: x == y)
 
     def __float__(self): raise Untraceable("float() of a symbolic number")
-    def __int__(self): raise Untraceable("int() of a symbolic number")
+    def __int__(self):
+        # optional hook (default absent): a tracer may record the argument of `int()` and hand back a
+        # sentinel integer, so that "this field is int(<term>)" can be tied without evaluating it
+        if Sym.int_hook is not None:
+            return Sym.int_hook(self)
+        raise Untraceable("int() of a symbolic number")
+
+    def __floor__(self):
+        # math.floor: same hook (a tracer that sets `int_hook` accepts either rounding-down function and
+        # must justify that they agree on its domain); without a hook untraceable as before
+        if Sym.int_hook is not None:
+            return Sym.int_hook(self)
+        raise Untraceable("math.floor of a symbolic number")
+
+    __trunc__ = __int__
     def __index__(self): raise Untraceable("index of a symbolic number")
     def __repr__(self): return f"Sym<{self.e}>"
 
